@@ -300,7 +300,12 @@ def judgeBatch (st : St) (obs : List String) : Verdict := Id.run do
   let some nsrc := (obs.getD 1 "").toNat? | return .badop "nsrc"
   let some (srcObs, tail) := parseSrcs (obs.drop 2) | return .badop "batch sources"
   let some untils := (tail.head?.bind parseUntils) | return .badop "untils"
-  if nsrc != sources.length || srcObs.length != sources.length then return .badop s!"sources {nsrc} {srcObs.length} {sources.length}"
+  -- the archive must give back as many sources as were recorded (the task's batch collectors are matched to them by
+  -- position; `ReplayBatchFromIO` refuses any other number and nothing is replayed)
+  if nsrc != sources.length || srcObs.length != sources.length then
+    if sources.any (fun sg => !sg.1.isEmpty) then
+      return .specfail "same-number-of-sources" s!"the recording was written with {sources.length} batch sources ({sources.map (fun sg => sg.1.length)} batches), the replay found {nsrc}: recorded batches are not delivered to their source"
+    return .mismatch s!"sources: recorded {sources.length} (all without batches), replay found {nsrc}"
   let mut keys : List String := []
   let mut brs : List String := ["batch"] ++ (if st.file then ["file-brpl"] else ["io-buffer"])
   let mut mUntils : List Int := []
@@ -399,7 +404,7 @@ def judgeLiveBatch (st : St) (srcs : List (List LBatch × List (Bytes × List By
   let some nsrc := (obs.getD 1 "").toNat? | return .badop "nsrc"
   let some (srcObs, tail) := parseLSrcs (obs.drop 2) | return .badop "live batch sources"
   let some untils := (tail.head?.bind parseUntils) | return .badop "untils"
-  if nsrc != srcs.length || srcObs.length != srcs.length then return .badop s!"sources {nsrc} {srcObs.length} {srcs.length}"
+  if nsrc != srcs.length || srcObs.length != srcs.length then return .mismatch s!"live sources: fed {srcs.length}, observed {nsrc}"
   let mut brs : List String := ["batch", "live-chan"]
   let mut mUntils : List Int := []
   let mut i := 0
